@@ -416,9 +416,21 @@ fn child(a: &Args) {
             }
             let mut bits = vec![outcome_code(oa)];
             bits.extend(a1.public_bits());
-            (bits, None)
+            let mut bits_b = vec![outcome_code(oa)];
+            bits_b.extend(b1.public_bits());
+            ((bits, None), (bits_b, None))
         });
-        all.push(finish(100, ki, ki, res, t0, full));
+        // the sketch is a function of the set of items (C02/C04), so the instance fed in reverse order must agree too
+        match res {
+            Ok((ra, rb)) => {
+                all.push(finish(100, ki, ki, Ok(ra), t0, full));
+                all.push(finish(102, ki, ki, Ok(rb), t0, full));
+            }
+            Err(e) => {
+                all.push(finish(100, ki, ki, Err(e.clone()), t0, full));
+                all.push(finish(102, ki, ki, Err(e), t0, full));
+            }
+        }
     }
     // (a'') an unrelated instance deliberately re-seeds itself (change_rng_seed); instances constructed AFTERWARDS with the
     // same parameters must still give the same sketches as everywhere else
